@@ -75,6 +75,8 @@ def ref_dns(dn, host):
     h0 = hl[0]
     if not (len(h0) >= len(pre) + len(post) and h0.lower().startswith(pre.lower()) and h0.lower().endswith(post.lower())):
         return REJECT
+    if h0.lower().startswith("xn--"):
+        return REJECT                    # the wildcard would expand inside the host's A-label (RFC 6125 6.4.3 rule 3)
     return EITHER
 
 
@@ -398,6 +400,14 @@ def LEMMAS(tier):
                     lemma("%r: every <label>.rest host is accepted : ref - L" % dn, z3.Intersect(ref, z3.Complement(L)),
                           lambda w, dn=dn: not M._dnsname_match(dn, w) and not w.lower().startswith("xn--"),
                           "[^.]+ rest - L(compiled)")
+            if tag == "host starts with xn--" and left != "*" and "*" in left:
+                # a partial wildcard must not expand inside the A-label of the HOST either: for hosts starting with xn-- the
+                # pattern compiled is the literal identifier
+                alabel = z3.Concat(ci("xn--"), tr.alphabet_star())
+                lemma("%r: a partial wildcard is not expanded against a host whose left-most label is an A-label" % dn,
+                      z3.Intersect(L, alabel, z3.Complement(ci(dn))),
+                      lambda w, dn=dn: bool(M._dnsname_match(dn, w)) and w.lower().startswith("xn--") and w.lower() != dn.lower(),
+                      "L(compiled for an xn-- host) & 'xn--'.* - {the literal identifier}")
             if left.lower().startswith("xn--"):
                 lit_ = ci(dn)
                 lemma("%r (%s): a wildcard inside an A-label is not expanded" % (dn, tag), z3.Intersect(L, z3.Complement(lit_)),
